@@ -92,10 +92,13 @@ PROPERTIES["C14"] = dict(
     harnesses=[
         H("features::signature_help::__verif::c14_active_q", Q, "active parameter == #commas before cursor; None without parameters", "4 tokens of symbolic kind, cursor <= 6", timeout=600),
         H("features::signature_help::__verif::c14_active_t", T, "same", "7 tokens with symbolic gaps/widths, cursor anywhere", timeout=1800),
-        H("features::signature_help::__verif::c14_enclosing_call_if", QT, "find_call_stmt_in_stmt: the call nested in `{ if (..) call }` is found iff the cursor is inside it, with the accumulated Reference offset", "block with one statement; symbolic base/statement/call offsets (<=2), call length 1..2, cursor; 7 adjacent one-byte tokens", timeout=1200, mem_gb=24),
-        H("features::signature_help::__verif::c14_enclosing_call_while", QT, "find_call_stmt_in_stmt: the call nested in `{ while (..) call }` is found iff the cursor is inside it, with the accumulated Reference offset", "block with one statement; symbolic base/statement/call offsets (<=2), call length 1..2, cursor; 7 adjacent one-byte tokens", timeout=1200, mem_gb=24),
-        H("features::signature_help::__verif::c14_enclosing_call_else", QT, "find_call_stmt_in_stmt: the call nested in `{ if (..) ; else call }` is found iff the cursor is inside it, with the accumulated Reference offset", "block with one statement; symbolic base/statement/call offsets (<=2), call length 1..2, cursor; 7 adjacent one-byte tokens", timeout=1200, mem_gb=24),
+        H("features::signature_help::__verif::c14_enclosing_call_if", Q, "find_call_stmt_in_stmt: the call nested in `{ if (..) call }` is found iff the cursor is inside it, with the accumulated Reference offset", "block with one statement; symbolic base/statement/call offsets (<=2), call length 1..2, cursor; 7 adjacent one-byte tokens", timeout=1200, mem_gb=24),
+        H("features::signature_help::__verif::c14_enclosing_call_while", Q, "find_call_stmt_in_stmt: the call nested in `{ while (..) call }` is found iff the cursor is inside it, with the accumulated Reference offset", "block with one statement; symbolic base/statement/call offsets (<=2), call length 1..2, cursor; 7 adjacent one-byte tokens", timeout=1200, mem_gb=24),
+        H("features::signature_help::__verif::c14_enclosing_call_else", Q, "find_call_stmt_in_stmt: the call nested in `{ if (..) ; else call }` is found iff the cursor is inside it, with the accumulated Reference offset", "block with one statement; symbolic base/statement/call offsets (<=2), call length 1..2, cursor; 7 adjacent one-byte tokens", timeout=1200, mem_gb=24),
         H("features::signature_help::__verif::c14_enclosing_call_proc", QT, "find_call_stmt: a call in the body of a procedure that starts at a symbolic token offset is found iff the cursor is inside it, with the absolute offset", "procedure with one call statement; symbolic procedure and statement offsets (<=3), call length 1..2, cursor", timeout=1200, mem_gb=24),
+        H("features::signature_help::__verif::c14_enclosing_call_if_t", T, "find_call_stmt_in_stmt: call nested in `{ if (..) call }` found iff the cursor is inside it, accumulated Reference offset", "symbolic base/statement/call offsets <= 3, call length 1..3, cursor; 12 adjacent one-byte tokens", timeout=3600, mem_gb=30),
+        H("features::signature_help::__verif::c14_enclosing_call_while_t", T, "find_call_stmt_in_stmt: call nested in `{ while (..) call }` found iff the cursor is inside it, accumulated Reference offset", "symbolic base/statement/call offsets <= 3, call length 1..3, cursor; 12 adjacent one-byte tokens", timeout=3600, mem_gb=30),
+        H("features::signature_help::__verif::c14_enclosing_call_else_t", T, "find_call_stmt_in_stmt: call nested in `{ if (..) ; else call }` found iff the cursor is inside it, accumulated Reference offset", "symbolic base/statement/call offsets <= 3, call length 1..3, cursor; 12 adjacent one-byte tokens", timeout=3600, mem_gb=30),
         H("features::signature_help::__verif::c14_twin_must_fail", QT, "vacuity twin", "", expect="fail", timeout=600),
     ],
 )
